@@ -212,5 +212,5 @@ def obligations(tier):
                               need_kinds=('rolled',)))
         obs.append(Ob('spool_law', timeout=T, pins={'text': text, 'preset': 0, 'nops': 2 if q else 3}, need_kinds=('rolled',)))
         for op1 in range(len(MOPS)):
-            obs.append(Ob('multi_law', timeout=T, pins={'text': text, 'nmax': 3 if q else 4, 'nops': 2 if q else 3, 'op1': op1}, need_kinds=('empty_member', 'full')))
+            obs.append(Ob('multi_law', timeout=T if q else 2700, pins={'text': text, 'nmax': 3 if q else 4, 'nops': 2 if q else 3, 'op1': op1}, need_kinds=('empty_member', 'full')))
     return obs
